@@ -20,8 +20,8 @@ func init() {
 	register(&Rule{Name: "pool.keys", Floor: 1,
 		Doc: "within one pool method, every (validator, epoch) Assignment key that indexes the same bookkeeping map derives its epoch from the same expression (a key built from another epoch in one branch is never found by the sibling branch's lookup)",
 		Run: rulePoolKeys})
-	register(&Rule{Name: "index.guard", Floor: 2,
-		Doc: "a slice index s[i] guarded by a comparison of i with len(s) must exclude i == len(s) (`i > len(s)` before s[i] lets the index one past the end through)",
+	register(&Rule{Name: "index.guard", Floor: 20,
+		Doc: "for every slice index s[i], the comparisons of i with len(s) that hold on the way to it (early refusals, enclosing branches, loop conditions, short-circuit operands; either operand order and polarity; locals by their reaching definition) must bound i - len(s) by -1 or less whenever they bound it at all: `i > len(s)` before s[i] lets the index one past the end through",
 		Run: ruleIndexGuard})
 }
 
@@ -391,97 +391,188 @@ func ruleNilMapLookup(c *Ctx) {
 	})
 }
 
+// pathFact is one comparison known to hold (neg: known NOT to hold) whenever control reaches a given node.
+type pathFact struct {
+	be  *ast.BinaryExpr
+	neg bool
+}
+
+// pathFactsAt reads the comparisons that hold at node n off the structure around it: n stands after an
+// `if C { …leaves… }` of an enclosing block (not C), inside the then-branch of `if C` or the body of `for …; C; …` (C),
+// inside an else-branch (not C), to the right of `C && …` (C) or `C || …` (not C). A conjunction that holds gives each
+// conjunct, a disjunction that does not hold gives the negation of each disjunct; anything else gives nothing.
+func pathFactsAt(parents map[ast.Node]ast.Node, n ast.Node) []pathFact {
+	var out []pathFact
+	var add func(e ast.Expr, neg bool)
+	add = func(e ast.Expr, neg bool) {
+		switch x := ast.Unparen(e).(type) {
+		case *ast.UnaryExpr:
+			if x.Op == token.NOT {
+				add(x.X, !neg)
+			}
+		case *ast.BinaryExpr:
+			switch {
+			case x.Op == token.LAND && !neg, x.Op == token.LOR && neg:
+				add(x.X, neg)
+				add(x.Y, neg)
+			case x.Op == token.LAND || x.Op == token.LOR:
+			default:
+				out = append(out, pathFact{x, neg})
+			}
+		}
+	}
+	var child ast.Node = n
+	for p := parents[n]; p != nil; child, p = p, parents[p] {
+		switch x := p.(type) {
+		case *ast.BlockStmt:
+			for _, st := range x.List {
+				if st == child {
+					break
+				}
+				if is, ok := st.(*ast.IfStmt); ok && is.Else == nil && terminates(is.Body) {
+					add(is.Cond, true)
+				}
+			}
+		case *ast.IfStmt:
+			if child == ast.Node(x.Body) {
+				add(x.Cond, false)
+			} else if child == ast.Node(x.Else) {
+				add(x.Cond, true)
+			}
+		case *ast.ForStmt:
+			if child == ast.Node(x.Body) && x.Cond != nil {
+				add(x.Cond, false)
+			}
+		case *ast.BinaryExpr:
+			if child == ast.Node(x.Y) {
+				if x.Op == token.LAND {
+					add(x.X, false)
+				} else if x.Op == token.LOR {
+					add(x.X, true)
+				}
+			}
+		case *ast.FuncLit:
+			return out
+		}
+	}
+	return out
+}
+
+// ruleIndexGuard: for every slice index s[i], the comparisons of i with len(s) that hold on the way to it (resolved
+// forms: locals by their reaching definition, conversions dropped, either operand order, either polarity, the guard
+// as an early refusal, an enclosing branch, a loop condition or a short-circuit operand) bound i - len(s) from above;
+// when such a bound exists it must be at most -1.
 func ruleIndexGuard(c *Ctx) {
+	type agg struct {
+		pos  token.Pos
+		best int64
+		text string
+	}
 	c.P.funcDecls(func(pk *packages.Package, fd *ast.FuncDecl) {
+		if fd.Body == nil {
+			return
+		}
 		info := pk.TypesInfo
+		polyRecv = nil
+		if fd.Recv != nil && len(fd.Recv.List) == 1 && len(fd.Recv.List[0].Names) == 1 {
+			polyRecv = info.Defs[fd.Recv.List[0].Names[0]]
+		}
+		polyReach, polyPaths = reachingDefs(info, fd.Body), true
+		defer func() { polyRecv, polyReach, polyPaths = nil, nil, false }()
+		defs := singleDefs(info, fd.Body)
 		parents := parentMap(fd.Body)
+		found := map[string]*agg{}
+		var order []string
 		ast.Inspect(fd.Body, func(n ast.Node) bool {
-			ifs, ok := n.(*ast.IfStmt)
-			if !ok || ifs.Else != nil {
+			ix, ok := n.(*ast.IndexExpr)
+			if !ok {
 				return true
 			}
-			// if i > len(s) { return/continue... }   (or >= for the correct form)
-			var conds []*ast.BinaryExpr
-			var flatten func(e ast.Expr)
-			flatten = func(e ast.Expr) {
-				be, ok := ast.Unparen(e).(*ast.BinaryExpr)
-				if !ok {
-					return
-				}
-				if be.Op == token.LOR {
-					flatten(be.X)
-					flatten(be.Y)
-					return
-				}
-				conds = append(conds, be)
-			}
-			flatten(ifs.Cond)
-			if !terminates(ifs.Body) {
+			if _, isSlice := info.TypeOf(ix.X).Underlying().(*types.Slice); !isSlice {
 				return true
 			}
-			for _, be := range conds {
-				if be.Op != token.GTR && be.Op != token.GEQ {
+			if tv, ok := info.Types[ix.Index]; ok && tv.Value != nil {
+				return true
+			}
+			pi, ok := exprPoly(info, ix.Index, defs, nil, 0)
+			if !ok {
+				return true
+			}
+			lenAtom := "len(" + exprTextD(info, ix.X, defs, 0) + ")"
+			d := polyAdd(pi, polyAtom(lenAtom), -1) // i - len(s)
+			upper, has := int64(0), false
+			ne := map[int64]bool{}
+			var text string
+			for _, f := range pathFactsAt(parents, ix) {
+				op := f.be.Op
+				if f.neg {
+					op = negOp[op]
+				}
+				if _, isCmp := negOp[op]; !isCmp {
 					continue
 				}
-				call, ok := ast.Unparen(be.Y).(*ast.CallExpr)
-				if !ok {
-					// uint64(len(s)) etc.
+				px, ok1 := exprPoly(info, f.be.X, defs, nil, 0)
+				py, ok2 := exprPoly(info, f.be.Y, defs, nil, 0)
+				if !ok1 || !ok2 {
 					continue
 				}
-				var lenArg ast.Expr
-				inner := call
-				for isConversion(info, inner) && len(inner.Args) == 1 {
-					c2, ok := ast.Unparen(inner.Args[0]).(*ast.CallExpr)
-					if !ok {
-						break
+				cut := polyAdd(px, py, -1)
+				if _, mentions := cut[lenAtom]; !mentions {
+					continue
+				}
+				// cut = sign·d + k ?
+				var u int64
+				bound := false
+				if k, isK := polyAdd(cut, d, -1).isConst(); isK { // d + k op 0
+					switch op {
+					case token.LSS:
+						u, bound = -k-1, true
+					case token.LEQ, token.EQL:
+						u, bound = -k, true
+					case token.NEQ:
+						ne[-k] = true
 					}
-					inner = c2
-				}
-				if id, ok := inner.Fun.(*ast.Ident); ok && id.Name == "len" && len(inner.Args) == 1 {
-					lenArg = inner.Args[0]
-				}
-				if lenArg == nil {
-					continue
-				}
-				idxStr := types.ExprString(stripConv(info, be.X))
-				sliceStr := types.ExprString(lenArg)
-				if _, isSlice := info.TypeOf(lenArg).Underlying().(*types.Slice); !isSlice {
-					continue
-				}
-				// is there a later s[idx] in the enclosing block?
-				blk, ok := parents[ifs].(*ast.BlockStmt)
-				if !ok {
-					continue
-				}
-				used := false
-				after := false
-				for _, st := range blk.List {
-					if st == ifs {
-						after = true
-						continue
+				} else if k, isK := polyAdd(cut, d, 1).isConst(); isK { // -d + k op 0
+					switch op {
+					case token.GTR:
+						u, bound = k-1, true
+					case token.GEQ, token.EQL:
+						u, bound = k, true
+					case token.NEQ:
+						ne[k] = true
 					}
-					if !after {
-						continue
+				}
+				if bound && (!has || u < upper) {
+					upper, has = u, true
+					text = types.ExprString(f.be)
+					if f.neg {
+						text = "!(" + text + ")"
 					}
-					ast.Inspect(st, func(m ast.Node) bool {
-						if ix, ok := m.(*ast.IndexExpr); ok && types.ExprString(ix.X) == sliceStr && types.ExprString(stripConv(info, ix.Index)) == idxStr {
-							used = true
-						}
-						return true
-					})
 				}
-				if !used {
-					continue
-				}
-				key := pkgShort(pk.Types) + "." + funcName(fd) + ":" + sliceStr + "[" + idxStr + "]"
-				if be.Op == token.GTR {
-					c.bad(key, be.Pos(), "guard `%s` lets %s == len(%s) through to %s[%s] (index out of range); must be >=", types.ExprString(be), idxStr, sliceStr, sliceStr, idxStr)
-				} else {
-					c.ok(key, be.Pos(), "guard excludes index == len")
-				}
+			}
+			if !has {
+				return true
+			}
+			for ne[upper] {
+				upper--
+			}
+			key := pkgShort(pk.Types) + "." + funcName(fd) + ":" + types.ExprString(ix.X) + "[" + types.ExprString(stripConv(info, ix.Index)) + "]"
+			if a := found[key]; a == nil {
+				found[key] = &agg{ix.Pos(), upper, text}
+				order = append(order, key)
+			} else if upper > a.best {
+				a.pos, a.best, a.text = ix.Pos(), upper, text
 			}
 			return true
 		})
+		for _, key := range order {
+			a := found[key]
+			if a.best >= 0 {
+				c.bad(key, a.pos, "the tightest guard on the way here (`%s`) lets the index reach len + %d: index == len is one past the end (index out of range)", a.text, a.best)
+			} else {
+				c.ok(key, a.pos, "guarded: index - len <= %d on every way here", a.best)
+			}
+		}
 	})
 }
 
